@@ -1,26 +1,29 @@
 """C05: Lean theorems + correspondence of the kernels (proof part of the check)."""
 import verif
 
-# ops whose model exists for the CURRENT tree and for the repaired tree (design/fixes/C05-*.diff):
-# the real code must agree with one of them; agreeing with the current model on a panic is the defect itself.
-FIXED_VARIANT = {"c05.implode": "c05.implode-fixed", "c05.space": "c05.space-fixed"}
-PANIC_KEY = {"c05.implode": "panic:%s:implode/0", "c05.space": "report:span:lex-report"}
+# Both defects of round 1 are repaired in the tree (496d12c implode, 5b5826b lexer): `c05.implode` and `c05.space`
+# answer with the model of the CURRENT code; the models of the tree as found (`-asfound`) are asked as well, so that the
+# evidence shows on which cases the two differ (exactly the cases that used to panic).
+ASFOUND_VARIANT = {"c05.implode": "c05.implode-asfound", "c05.space": "c05.space-asfound"}
+PANIC_KEY = {"c05.implode": "panic:%s:implode/0", "c05.space": "report:span:lex-report",
+             "c05.regexoff": "panic:%s:matches/2", "c05.envshape": "panic:%s:native-env-shape", "c05.cwalk": "panic:%s:compile-locals"}
 
 
 def run(ctx):
     ctx.build_model()
     proof = ctx.lean_check()
     ctx.log("lean:", "ok" if proof["ok"] else "BROKEN", len(proof["theorems"]), "theorems")
-    out = ctx.harness(["c05", "kernels"])
+    import os
+    out = ctx.harness(["c05", "kernels", "--docs", os.path.join(verif.REPO, "docs")])
     cases = [l.split("\t") for l in out.splitlines() if l]
     cases = [c + [""] * (4 - len(c)) for c in cases if len(c) >= 3]
     reqs = [c[1] for c in cases]
-    fixed_reqs = [(FIXED_VARIANT[r.split(" ")[0]] + " " + r.split(" ", 1)[1]) if r.split(" ")[0] in FIXED_VARIANT else r for r in reqs]
+    old_reqs = [(ASFOUND_VARIANT[r.split(" ")[0]] + " " + r.split(" ", 1)[1]) if r.split(" ")[0] in ASFOUND_VARIANT else r for r in reqs]
     ans = ctx.model(reqs)
-    ans_fixed = ctx.model(fixed_reqs)
-    bad = panics = fixed_seen = 0
+    ans_old = ctx.model(old_reqs)
+    bad = panics = differs_from_asfound = 0
     per_op = {}
-    for (cid, req, real, site), m, mf in zip(cases, ans, ans_fixed):
+    for (cid, req, real, site), m, mo in zip(cases, ans, ans_old):
         op = req.split(" ")[0]
         per_op[op] = per_op.get(op, 0) + 1
         defect = real == "P" or real == "detached"
@@ -29,21 +32,23 @@ def run(ctx):
             # the real code panics / reports a span outside the text: a violation whatever the model says
             key = PANIC_KEY.get(op, "panic:%s:" + op)
             key = key % site if "%s" in key else key
-            what = ("kernel `%s`: the real code panics (%s)" % (req, site)) if real == "P" else \
-                   ("lexer `space` leaves a string that is not part of the filter text (the reported span is outside): `%s`" % req)
-            ctx.violation(key, what, {"sweep": "kernel", "request": req, "real": real, "model_current": m, "model_fixed": mf})
+            what = ("kernel `%s`: the real code panics (%s)" % (req[:200], site)) if real == "P" else \
+                   ("lexer `space` leaves a string that is not part of the filter text (the reported span is outside): `%s`" % req[:200])
+            ctx.violation(key, what, {"sweep": "kernel", "request": req[:400], "real": real, "model_current": m, "model_as_found": mo})
+        if m != mo:
+            differs_from_asfound += 1
         if real == m:
-            continue
-        if real == mf:
-            fixed_seen += 1          # the repaired behaviour: the fix has been applied to the tree
             continue
         bad += 1
         if bad <= 20:
-            ctx.violation("c05-corr:" + req, "kernel correspondence: real code and proved model disagree on `%s`" % req,
-                          {"sweep": "kernel", "case_id": cid, "request": req, "real": real, "model_current": m, "model_fixed": mf},
+            ctx.violation("c05-corr:" + req[:200], "kernel correspondence: real code and proved model disagree on `%s`" % req[:200],
+                          {"sweep": "kernel", "case_id": cid, "request": req[:400], "real": real, "model_current": m, "model_as_found": mo},
                           broken=["correspondence c05-kernels"])
-    ctx.log("kernel correspondence: %d cases, %d disagreements, %d real panics/detached spans, %d cases follow the repaired model"
-            % (len(cases), bad, panics, fixed_seen))
-    samples = [{"request": c[1], "real": c[2]} for c in (cases[:2] + cases[len(cases) // 2: len(cases) // 2 + 2] + cases[-2:])]
+    ctx.log("kernel correspondence: %d cases, %d disagreements, %d real panics/detached spans, %d cases on which the tree as found differed (panicked)"
+            % (len(cases), bad, panics, differs_from_asfound))
+    by_op = {}
+    for c in cases:
+        by_op.setdefault(c[1].split(" ")[0], []).append(c)
+    samples = [{"request": c[1][:300], "real": c[2]} for op in sorted(by_op) for c in by_op[op][:1]]
     return {"cases": len(cases), "per_op": per_op, "disagreements": bad, "real_panics": panics,
-            "cases_following_repaired_model": fixed_seen, "traces_validated_against_impl": len(cases), "samples": samples}
+            "cases_where_tree_as_found_panicked": differs_from_asfound, "traces_validated_against_impl": len(cases), "samples": samples}
